@@ -24,6 +24,7 @@ def run(ctx):
     ctx.do(R.rule_k2)
     ctx.do(SI.rule_k3)
     ctx.do(DG.rule_hd2)
+    ctx.do(SI.rule_pt1, [SI.CP])
     ctx.do(u1, ENTRIES, min_functions=20)
     ctx.r.assume("stereographic formulas, Moebius images, double complement "
                  "and Fubini-Study quantities are numerical and not decided")
